@@ -12,6 +12,7 @@ INVARIANT TypeOK
 INVARIANT WorkingWellFormed
 INVARIANT CommittedWellFormed
 PROPERTY Atomic
+PROPERTY OriginAtomic
 PROPERTY RefusedIsNoop
 PROPERTY ReadOnlyNoChange
 PROPERTY EndedRefuses
